@@ -54,7 +54,11 @@ namespace options
         {
             if (!is_value() && !is_double_dash())
             {
-                if (!std::regex_match(arg, std::regex("-{1,2}[^-=]+[^=]*=?[\\s\\S]*")))
+                // One or two dashes, followed by the first character of the name. Checked by hand:
+                // std::regex_match recurses once per character and overflows the stack for long
+                // arguments.
+                auto name_begin = arg.find_first_not_of('-');
+                if (name_begin == std::string::npos || name_begin > 2 || arg[name_begin] == '=')
                 {
                     raise<parsing_error>("The user input couldn't be parsed. (", arg, ")");
                 }
